@@ -210,6 +210,8 @@ Faults32 ==
   { [kind |-> "flip", pos |-> p, mask |-> m, sub |-> ""] : p \in 0..5, m \in {1, 128} }
   \cup { [kind |-> k, pos |-> p, mask |-> 0, sub |-> ""] : k \in {"trunc", "split", "refrag"}, p \in 0..4 }
   \cup { [kind |-> k, pos |-> 0, mask |-> 0, sub |-> ""] : k \in {"dup", "drop", "close"} }
+  \* a cleartext handshake message cut to 0/1/2/3/half/all-but-one bytes, or padded, with consistent framing
+  \cup { [kind |-> k, pos |-> p, mask |-> 0, sub |-> ""] : k \in {"shorten", "lengthen"}, p \in 0..5 }
   \cup { [kind |-> "garbage", pos |-> 0, mask |-> 0, sub |-> x] : x \in {"keep-header", "all"} }
   \cup { [kind |-> "insert", pos |-> 0, mask |-> 0, sub |-> x] :
            x \in {"junk-handshake", "short-handshake", "huge-handshake", "alert-warning", "alert-fatal", "unknown-type",
